@@ -284,15 +284,32 @@ def _model_eval(m):
     return ev
 
 
-def _replay(con, z3model):
-    """Concretise the counter-model and run the REAL function natively against the run-time oracle;
-    if the model is not realisable fall back to the contract's small-input family."""
+def _replay_inputs(con, z3model):
+    """First half of the replay (runs next to the solver, in the guarded child): concretise the counter-model into plain inputs."""
+    try:
+        if z3model is not None and con.concretize is not None:
+            inp = con.concretize(_model_eval(z3model))
+            return None if inp is None else json.loads(json.dumps(inp, default=str))
+    except Exception as e:
+        return {"__concretize_error__": f"{type(e).__name__}: {e}"}
+    return None
+
+
+def _replay(con, z3model, inputs=None):
+    """Run the REAL function natively against the run-time oracle on the concretised counter-model; if the model is not
+    realisable fall back to the contract's small-input family.  Native library code (torch / OpenMP thread pools) must not run
+    in a child forked from a process that already used it, so this half runs in the pool worker itself, on `inputs` prepared by
+    `_replay_inputs`."""
     out = {"violated": False}
     try:
         tried = []
-        if z3model is not None and con.concretize is not None:
+        if isinstance(inputs, dict) and "__concretize_error__" in inputs:
+            out["error"] = inputs["__concretize_error__"]
+            inputs = None
+        if inputs is None and z3model is not None and con.concretize is not None:
             inputs = con.concretize(_model_eval(z3model))
-            if inputs is not None:
+        if inputs is not None:
+            if True:
                 res = con.rt(inputs)
                 tried.append(dict(inputs=inputs, **res))
                 if res.get("violated"):
@@ -373,8 +390,8 @@ def _verify_one(args):
                 rec["meta"] = {k_: str(v)[:300] for k_, v in ob.meta.items()}
                 rec["smt2"] = to_smt2(ob.hyps, ob.goal)[:20000]
             if r["status"] != "proved" and (con.rt is not None):
-                hb(300)
-                rec["replay"] = _replay(con, r.get("z3model"))
+                rec["_replay_inputs"] = _replay_inputs(con, r.get("z3model"))  # the native run happens in the pool worker (below)
+                rec["_wants_replay"] = True
             rec["sample"] = _goal_text(ob.goal, 300, simplify=True)
             rec["n_hyps"] = len(ob.hyps)
             return json.loads(json.dumps(rec, default=str))
@@ -385,7 +402,11 @@ def _verify_one(args):
                         model=None, reason=why, goal=_goal_text(ob.goal, 600), meta={k_: str(v)[:300] for k_, v in ob.meta.items()},
                         smt2="", sample=_goal_text(ob.goal, 300, simplify=True), n_hyps=len(ob.hyps))
 
-        out["obligations"].extend(_guarded_map(len(obs), do_ob, killed_ob))
+        recs = _guarded_map(len(obs), do_ob, killed_ob)
+        for rec in recs:
+            if rec.pop("_wants_replay", False):
+                rec["replay"] = _replay(con, None, rec.pop("_replay_inputs", None))
+        out["obligations"].extend(recs)
         # canary / vacuity: on at least one normally-returning path `False` must NOT be provable,
         # and a deliberately falsified postcondition must fail
         can = {"vacuous_paths": 0, "live_paths": 0, "falsified_post_fails": None}
